@@ -178,6 +178,13 @@ _ZYGOTE = {}
 
 
 def isolated(check, case, timeout_s=None):
+    res = _isolated(check, case, timeout_s)
+    if res.get('viol') and hasattr(check, 'confirm'):
+        res = check.confirm(case, res, _isolated)
+    return res
+
+
+def _isolated(check, case, timeout_s=None):
     t = timeout_s or getattr(check, 'run_timeout_s', 60.0)
     if check.isolation == 'fork' or os.environ.get('VERIF_FORCE_FORK'):
         if hasattr(check, 'zygote_init') and check.wants_zygote(case):
@@ -263,6 +270,12 @@ def _worker(check, w, nworkers, tier, seed, max_runs, deadline, keep_digests, on
                 i += nworkers
                 continue
             res = isolated(check, case)
+            if os.environ.get('VERIF_ROUNDTRIP'):
+                # a replay file is the case after a JSON round trip (sorted keys): it must denote the same run
+                res2 = isolated(check, json.loads(json.dumps(case, sort_keys=True)))
+                if res2.get('digest') != res.get('digest') or bool(res2.get('viol')) != bool(res.get('viol')):
+                    agg.errors.append('run %d: case does not survive a JSON round trip (digest %s vs %s)'
+                                      % (i, res.get('digest'), res2.get('digest')))
             agg.add(i, case, res, keep_digests, check)
         except HarnessError as e:
             agg.errors.append('run %d: %s' % (i, e))
@@ -390,6 +403,7 @@ def write_replay(check, clause, seed, i, case, viol, extra=None):
     safe = ''.join(ch if ch.isalnum() or ch in '-_.' else '_' for ch in clause)
     path = os.path.join(d, '%s-%s.json' % (safe, _case_digest(case)))
     rec = {'property': check.pid, 'clause': clause, 'verif_seed': seed, 'run_index': i,
+           'pythonhashseed': os.environ.get('PYTHONHASHSEED'),
            'case': case, 'violation': viol,
            'replay': './check %s --replay %s' % (check.pid, path)}
     if extra:
@@ -401,8 +415,7 @@ def write_replay(check, clause, seed, i, case, viol, extra=None):
 
 def replay_in_fresh_interpreter(check, path):
     env = dict(os.environ)
-    env['PYTHONHASHSEED'] = '4242' if env.get('PYTHONHASHSEED') != '4242' else '17'
-    env['VERIF_REPLAY_CHILD'] = '1'
+    env['VERIF_REPLAY_CHILD'] = '1'       # same PYTHONHASHSEED as recorded in the file (inherited)
     try:
         p = subprocess.run([sys.executable, os.path.join(VERIF, 'check'), check.pid, '--replay', path],
                            env=env, stdout=subprocess.PIPE, stderr=subprocess.STDOUT, timeout=600)
@@ -415,6 +428,11 @@ def replay_in_fresh_interpreter(check, path):
 def do_replay(check, path):
     with open(path) as f:
         rec = json.load(f)
+    want_hs = rec.get('pythonhashseed')
+    if want_hs is not None and os.environ.get('PYTHONHASHSEED') != want_hs:
+        env = dict(os.environ)
+        env['PYTHONHASHSEED'] = want_hs
+        os.execve(sys.executable, [sys.executable, os.path.join(VERIF, 'check'), check.pid, '--replay', path], env)
     case = rec['case']
     res = isolated(check, case)
     v = res.get('viol')
